@@ -3,6 +3,7 @@
    what that property's statements need, so that a change which breaks one property's proof leaves the
    others' theorems checkable. *)
 From NTRIP Require Import Base Bits Time Classify Frame FrameSpec FrameProofs Net Pipe PipeFrames.
+From NTRIPGen Require Import GenConsts.
 
 (* ===================== C09 ===================== *)
 (* The reader -> framer -> fan-out -> consumers network of appcore.HandleMessagesUntilEOF (Pipe.v),
@@ -56,6 +57,14 @@ Theorem C09_frames : forall t0 (input : list N) (k : nat) (live : nat -> bool) c
      forall i, (i < k)%nat -> sink_out N msg (list N) c i = if live i then ms else []).
 Proof. exact pipeline_frames. Qed.
 Print Assumptions C09_frames.
+
+(* The fan-out process of Pipe.v transcribes this loop of appcore.HandleMessagesUntilEOF:
+     for i := range appCore.Channels { if appCore.Channels[i] != nil { appCore.Channels[i] <- message } }
+   (the function's only send statement).  genfacts re-reads the source on every run and sets
+   fanout_all_non_nil accordingly; if the loop changes shape this obligation fails. *)
+Theorem C09_source_shape : fanout_all_non_nil = true.
+Proof. reflexivity. Qed.
+Print Assumptions C09_source_shape.
 
 Example C09_example :
   exists c, run _ _ _ (Pipe.prog nat nat nat (fun s b => (s + b, if Nat.even b then [s + b] else []))%nat (fun s => [s]) 2 (fun i => Nat.eqb i 1))
